@@ -110,6 +110,8 @@ type client struct {
 	lastPongAt      time.Time
 	reconnectCount  int
 	doReconnectting bool
+	// a loss of the current conn was reported while doReconnectting was set
+	lossPending bool
 
 	addr            *url.URL
 	dialOptions     *DialOptions
@@ -189,6 +191,8 @@ func (c *client) dial(ctx context.Context, dialer DialConnFunc) (err error) {
 	c.stateMu.Lock()
 	c.conn = conn
 	c.stateMu.Unlock()
+	// losses reported so far concern the conns this one replaces
+	c.lossPending = false
 	c.conn.OnPacket(c.onPacket)
 	c.conn.OnClose(c.onConnClose)
 
@@ -214,7 +218,7 @@ func (c *client) onConnClose(err error) {
 
 	c.Logger.Debugf("reconnect for conn closed: %v", err)
 
-	c.reconnecting()
+	c.recoverLoss(true)
 }
 
 func (c *client) auth() error {
@@ -246,8 +250,21 @@ func (c *client) auth() error {
 }
 
 func (c *client) reconnecting() {
+	c.recoverLoss(false)
+}
+
+// recoverLoss runs the reconnect loop unless one is running. connLost tells
+// that the caller is the close callback of a conn: when the running loop has
+// already installed that conn (it is finishing: authenticating, or inside the
+// after-reconnect callback) the loss would otherwise be forgotten and the
+// client would stay on a dead conn until the next keepalive ping, so it is
+// remembered and the loop runs once more.
+func (c *client) recoverLoss(connLost bool) {
 	c.Lock()
 	if c.doReconnectting {
+		if connLost {
+			c.lossPending = true
+		}
 		c.Unlock()
 		return
 	}
@@ -316,7 +333,17 @@ func (c *client) reconnecting() {
 
 	c.Lock()
 	c.doReconnectting = false
+	again := c.lossPending
+	c.lossPending = false
 	c.Unlock()
+
+	if again {
+		select {
+		case <-c.closeCh:
+		default:
+			c.recoverLoss(false)
+		}
+	}
 }
 
 func (c *client) reconnect() error {
